@@ -94,6 +94,8 @@ func cmdCheck(args []string) int {
 	verbose := fs.Bool("verbose", false, "verbose")
 	solver := fs.String("solver", "z3-new", "primary solver binary")
 	noReplay := fs.Bool("no-replay", false, "skip native replay (debug)")
+	noNSR := fs.Bool("no-native-schedule", false, "skip the native replay of concurrent counterexamples with the schedule forced (interpretive replay only)")
+	nsrTried, nsrOK := 0, 0
 	keep := fs.Bool("keep-queries", false, "keep dumped assertion queries")
 	maxPaths := fs.Int("max-paths", 0, "override path budget (debug)")
 	fs.Parse(args[1:])
@@ -237,7 +239,17 @@ func cmdCheck(args []string) int {
 				// concurrent counterexample: the schedule is part of it; replayed by the engine itself with all
 				// inputs and scheduling decisions substituted (replay-mode=interp)
 				out, ok := InterpReplay(P, it.r.Job, it.v)
-				rr[it.v] = replayRes{out + " replay-mode=interp", ok}
+				mode := " replay-mode=interp"
+				if ok && !*noNSR {
+					if nout, nok := nativeSchedReplay(it.v); nok {
+						mode = " replay-mode=native-schedule " + nout
+						nsrOK++
+					} else {
+						mode += " (" + nout + ")"
+					}
+					nsrTried++
+				}
+				rr[it.v] = replayRes{out + mode, ok}
 				replays++
 				continue
 			}
@@ -288,6 +300,7 @@ func cmdCheck(args []string) int {
 	writeEvidence(id, *tier, seed, results, confirmed, undecided, time.Since(t0), replays+selfOK, map[string]interface{}{
 		"load_s": loadT.Seconds(), "translator_selftests": selfN, "translator_selftests_identical": selfOK, "canaries": canaries, "canaries_confirmed_natively": canaryOK, "solver_diff_queries": diffN,
 		"known_findings_hit": uniq(knownLines),
+		"native_schedule_replays_tried": nsrTried, "native_schedule_replays_reproduced": nsrOK,
 	})
 	if exit == 1 {
 		return 1
@@ -350,9 +363,17 @@ var (
 
 // ensureTestBin builds (once per process and package) the test binary that contains the harnesses, the
 // native harness runtime and the environment overlays, from /repo's current working tree.
-func ensureTestBin(pkg string) (string, string) {
+func ensureTestBin(pkg string) (string, string) { return ensureTestBinMode(pkg, false) }
+
+// ensureTestBinMode: with sched=true the binary is built from copies whose synchronisation goes through the shims
+// (native schedule replay, nsr.go).
+func ensureTestBinMode(pkgPath string, sched bool) (string, string) {
 	testBinMu.Lock()
 	defer testBinMu.Unlock()
+	pkg := pkgPath
+	if sched {
+		pkg = pkgPath + "#sched"
+	}
 	if b, ok := testBins[pkg]; ok {
 		return b, testBinErr[pkg]
 	}
@@ -371,10 +392,16 @@ func ensureTestBin(pkg string) (string, string) {
 		os.WriteFile(rp, []byte(mod), 0o644)
 		real[filepath.Join(repoDir, "internal/xruntime/xruntime.go")] = rp
 	}
+	if sched {
+		if err := schedOverlay(real, dir); err != nil {
+			testBins[pkg], testBinErr[pkg] = "", "rewrite for native schedule replay failed: "+err.Error()
+			return "", testBinErr[pkg]
+		}
+	}
 	b, _ := json.Marshal(map[string]map[string]string{"Replace": real})
 	ovPath := filepath.Join(dir, "overlay.json")
 	os.WriteFile(ovPath, b, 0o644)
-	rel := strings.TrimPrefix(strings.TrimPrefix(pkg, repoModule), "/")
+	rel := strings.TrimPrefix(strings.TrimPrefix(pkgPath, repoModule), "/")
 	if rel == "" {
 		rel = "."
 	}
@@ -563,7 +590,13 @@ func cmdReplay(args []string) int {
 		fmt.Println("  vLog:", l)
 	}
 	if iok {
-		fmt.Printf("VIOLATION property=%s replay=%s replay-mode=interp\n", v.Property, args[0])
+		nout, nok := nativeSchedReplay(&v)
+		fmt.Println(nout)
+		mode := "interp"
+		if nok {
+			mode = "native-schedule"
+		}
+		fmt.Printf("VIOLATION property=%s replay=%s replay-mode=%s\n", v.Property, args[0], mode)
 		return 1
 	}
 	fmt.Println("did not reproduce")
